@@ -912,6 +912,15 @@ class RTCSctpTransport(AsyncIOEventEmitter):
             ochunk._retransmit = False
             if ochunk.flags & SCTP_DATA_LAST_FRAG:
                 break
+        else:
+            # the remaining fragments of the message have not been sent yet
+            # and never will be, but their TSNs need to be skipped too
+            while self._outbound_queue:
+                ochunk = self._outbound_queue.popleft()
+                ochunk._abandoned = True
+                self._sent_queue.append(ochunk)
+                if ochunk.flags & SCTP_DATA_LAST_FRAG:
+                    break
 
         return True
 
@@ -1209,7 +1218,7 @@ class RTCSctpTransport(AsyncIOEventEmitter):
                     highest_newly_acked = schunk.tsn
 
             # strike missing chunks prior to HTNA
-            for schunk in self._sent_queue:
+            for schunk in list(self._sent_queue):
                 if uint32_gt(schunk.tsn, highest_newly_acked):
                     break
                 if schunk.tsn not in seen:
@@ -1506,7 +1515,7 @@ class RTCSctpTransport(AsyncIOEventEmitter):
         self.__log_debug("x T3 expired")
 
         # mark retransmit or abandoned chunks
-        for chunk in self._sent_queue:
+        for chunk in list(self._sent_queue):
             if not self._maybe_abandon(chunk):
                 chunk._retransmit = True
         self._update_advanced_peer_ack_point()
